@@ -79,7 +79,7 @@ pub fn run_mode(env: &mut Env, c04_mode: bool) -> Outcome {
     let mut expected_act = 1;
     if second_activation {
         ctxrc.borrow_mut().probe("reactivation");
-        let new_id = params.share_id ^ 0x00010000 ^ (env.case as u32 & 0xff);
+        let new_id = if ctxrc.borrow_mut().chance("reuse_share_id", 1, 3) { params.share_id } else { params.share_id ^ 0x00010000 ^ (env.case as u32 & 0xff) };
         {
             let mut srv = s.world.server.borrow_mut();
             srv.phase = Phase::Activation;
